@@ -59,10 +59,10 @@ theorem lognormal_moments_value {m s : ℝ} (hm : 0 < m) (hs : 0 < s) :
   have hm' : ¬ m ≤ 0 := not_le.mpr hm
   have hs' : ¬ s ≤ 0 := not_le.mpr hs
   constructor
-  · simp only [lognormalMomentsRe, hm', hs', if_false, Np.log1p, Priors.sq, TranscReal.sqrt_eq,
+  · simp only [lognormalMomentsRe, lognormalMomentsReWith, hm', hs', if_false, Np.log1p, Priors.sq, TranscReal.sqrt_eq,
       TranscReal.log_eq, e1, e2, hsq]
     congr 2; ring
-  · simp only [lognormalMomentsCl, hm, hs, not_true_eq_false, if_false, Np.log1p, Priors.sq, TranscReal.sqrt_eq,
+  · simp only [lognormalMomentsCl, lognormalMomentsClWith, hm, hs, not_true_eq_false, if_false, Np.log1p, Priors.sq, TranscReal.sqrt_eq,
       TranscReal.log_eq, e1, hsq]
 
 /-- JAX variant: for mean `m > 0`, std `s > 0` the returned `(μ_ℓ, σ_ℓ)` have `σ_ℓ > 0` and reproduce the moments of
@@ -84,10 +84,59 @@ theorem lognormal_moments_spec_cl {m s : ℝ} (hm : 0 < m) (hs : 0 < s) :
   · rw [pow_two, hsq]; exact h1
   · rw [pow_two, hsq]; exact h2
 
+/-- the Kahan-stable evaluation of `log1p` is, over `ℝ`, the textbook `log(1+v)` (all `v`) -/
+theorem log1pStable_eq (v : ℝ) : log1pStable v = log (1 + v) := by
+  have e1 : (1.0 : ℝ) = 1 := by norm_num
+  simp only [log1pStable, TranscReal.log_eq, e1]
+  by_cases h : (1 + v < 1 ∨ 1 < 1 + v)
+  · rw [if_pos h]
+    have hv : v ≠ 0 := by
+      rcases h with h | h
+      · exact ne_of_lt (by linarith)
+      · exact ne_of_gt (by linarith)
+    have : (1 + v - 1 : ℝ) = v := by ring
+    rw [this, mul_div_assoc, div_self hv, mul_one]
+  · rw [if_neg h]
+    have hv : v = 0 := by
+      have h1 : ¬ (1 + v < 1) := fun hh => h (Or.inl hh)
+      have h2 : ¬ (1 < 1 + v) := fun hh => h (Or.inr hh)
+      linarith [not_lt.mp h1, not_lt.mp h2]
+    rw [hv, add_zero, log_one]
+
+/-- **the stable formula is the specification**: evaluating `lognormal_moments` with the numerically stable `log1p`
+    (what `np.log1p`/`jnp.log1p` and the harness' float64 reference `sqrt(log1p((s/m)²))`, `log m − log1p((s/m)²)/2` do) is,
+    over `ℝ`, the same function as the textbook evaluation — for *all* arguments, JAX and classic variant. Hence
+    `lognormal_moments_value/_spec` hold verbatim for the stable evaluation. -/
+theorem lognormal_moments_stable (m s : ℝ) :
+    lognormalMomentsReWith log1pStable m s = lognormalMomentsRe m s ∧
+    lognormalMomentsClWith log1pStable m s = lognormalMomentsCl m s := by
+  have e1 : (1.0 : ℝ) = 1 := by norm_num
+  have h : (log1pStable : ℝ → ℝ) = Np.log1p := by
+    funext v
+    rw [log1pStable_eq]
+    simp only [Np.log1p, TranscReal.log_eq, e1]
+  simp only [lognormalMomentsRe, lognormalMomentsCl, h, and_self]
+
+/-- the reference the harness uses at the extremes, for `m, s > 0`:
+    `(log m − log1p((s/m)²)/2, √(log1p((s/m)²)))` with the stable `log1p` — and its moments are `m`, `s²` -/
+theorem lognormal_moments_stable_value {m s : ℝ} (hm : 0 < m) (hs : 0 < s) :
+    lognormalMomentsReWith log1pStable m s
+      = some (log m - log1pStable (s / m * (s / m)) / 2, sqrt (log1pStable (s / m * (s / m)))) ∧
+    exp ((log m - log1pStable (s / m * (s / m)) / 2) + (sqrt (log1pStable (s / m * (s / m)))) ^ 2 / 2) = m ∧
+    (exp ((sqrt (log1pStable (s / m * (s / m)))) ^ 2) - 1)
+      * exp (2 * (log m - log1pStable (s / m * (s / m)) / 2) + (sqrt (log1pStable (s / m * (s / m)))) ^ 2) = s ^ 2 := by
+  obtain ⟨-, hsq, h1, h2⟩ := lognormal_algebra hm hs
+  rw [(lognormal_moments_stable m s).1, (lognormal_moments_value hm hs).1, log1pStable_eq]
+  refine ⟨rfl, ?_, ?_⟩
+  · rw [pow_two, hsq]; exact h1
+  · rw [pow_two, hsq]; exact h2
+
+example : log1pStable (1e-18 : ℝ) = log (1 + 1e-18) := log1pStable_eq _
+
 /-- both variants reject non-positive mean or std (the `ValueError`) -/
 theorem lognormal_moments_rejects {m s : ℝ} (hbad : m ≤ 0 ∨ s ≤ 0) :
     lognormalMomentsRe m s = none ∧ lognormalMomentsCl m s = none := by
-  simp only [lognormalMomentsRe, lognormalMomentsCl]
+  simp only [lognormalMomentsRe, lognormalMomentsCl, lognormalMomentsReWith, lognormalMomentsClWith]
   rcases hbad with hb | hb
   · simp [hb, not_lt.mpr hb]
   · by_cases hm : 0 < m <;> simp [hm, hb, not_lt.mpr hb, not_le.mpr]
@@ -549,8 +598,17 @@ theorem invgamma_exact_at_nodes {g : ℝ → ℝ} (hgpos : ∀ x, 0 < g x) (scal
 /-! ## classic tabulated operators: the compositions around the spline (`spline`, `dspline` are SciPy's, parameters here) -/
 
 /-- `InverseGammaOperator`, `GammaOperator`, `LogInverseGammaOperator` are strictly increasing whenever the interpolant of
-    their table is, for positive `q`, `θ` -/
-theorem strictMono_tabulated_cl {spline : ℝ → ℝ} (hsp : StrictMono spline) {q : ℝ} (hq : 0 < q) :
+    their table is, for positive `q`, `θ`.
+
+    PARTIAL (known finding C30-classic_spline_small_shape). Full statement the property asks for — no hypothesis on the
+    interpolant, `spline` := SciPy's `CubicSpline` through the documented table on `arange(-8.2, 8.2, delta)`:
+      `∀ α θ delta > 0, StrictMono (GammaOperator α θ delta)`, values in the support `(0, ∞)` (same for `BetaOperator`).
+    It is FALSE for the real code in the region  shape ≤ 0.2 ∧ delta ≥ 0.02  (linear-space table spanning > 100 orders of
+    magnitude: the cubic spline rings): `GammaOperator(alpha=0.1, theta=1, delta=0.05)` has `spline(-6.99) = -1.897e-89`,
+    `spline(-5.08) = -1.7485e-67` (replayed on the real code every run: corpus/C30/classic_spline_small_shape.json).
+    What is proved is the implication from the monotonicity of the interpolant; the witness below shows that the
+    hypothesis cannot be dropped. The JAX transform (piecewise linear, `interp_monotone`) is not affected. -/
+theorem strictMono_tabulated_cl_partial {spline : ℝ → ℝ} (hsp : StrictMono spline) {q : ℝ} (hq : 0 < q) :
     StrictMono (invGammaCl spline q) ∧ StrictMono (gammaCl spline q) ∧ StrictMono (logInvGammaCl spline q) := by
   refine ⟨fun a b hab => ?_, fun a b hab => ?_, fun a b hab => ?_⟩
   · simp only [invGammaCl, TranscReal.exp_eq]
@@ -560,6 +618,23 @@ theorem strictMono_tabulated_cl {spline : ℝ → ℝ} (hsp : StrictMono spline)
   · simp only [logInvGammaCl]
     have := hsp hab
     linarith
+
+/-- witness at the excluded point: an interpolant with `spline(-5.08) < spline(-6.99)` and `spline(-5.08) < 0` (the values the
+    real `GammaOperator(alpha=0.1, theta=1, delta=0.05)` produces) makes the operator non-monotone and negative -/
+theorem tabulated_cl_witness {spline : ℝ → ℝ} (h : spline (-5.08) < spline (-6.99)) (hneg : spline (-5.08) < 0)
+    {θ : ℝ} (hθ : 0 < θ) :
+    ¬ StrictMono (gammaCl spline θ) ∧ gammaCl spline θ (-5.08) < 0 := by
+  refine ⟨fun hm => ?_, ?_⟩
+  · have hlt : gammaCl spline θ (-6.99) < gammaCl spline θ (-5.08) := hm (by norm_num)
+    simp only [gammaCl] at hlt
+    have := mul_lt_mul_of_pos_right h hθ
+    linarith
+  · simp only [gammaCl]
+    exact mul_neg_of_neg_of_pos hneg hθ
+
+example : ¬ StrictMono (gammaCl (fun x : ℝ => if x = -6.99 then (-1.897e-89 : ℝ) else -1.7485e-67) 1) :=
+  (tabulated_cl_witness (spline := fun x : ℝ => if x = -6.99 then (-1.897e-89 : ℝ) else -1.7485e-67)
+    (by norm_num) (by norm_num) one_pos).1
 
 /-- where the interpolant reproduces the table (`spline x = log Q(Φ x)`, resp. `Q(Φ x)`), the operators return the target
     quantile: `q·Q_α(p)` is the inverse-gamma(α, q) quantile, `Q_α(p)·θ` the gamma(α, θ) quantile (scale families) -/
